@@ -418,7 +418,7 @@ impl Component for Classifier {
     fn rule(&self) -> &'static str {
         "classifier: a case is a history of 20-70 `tick` ops over 0-6 links (mostly 1-4) run on the real WeakLinkFilter with \
          persistent SrtlaConnection objects; scenarios: starved link for >=20 ticks (probation cycles, optionally interrupted \
-         by a bypass blip / disconnect / absence / delay verdict), victim share placed at, just below and just above \
+         by a bypass blip / disconnect / absence / delay verdict), probation windows with bypassed / disconnected / removed ticks inside, victim share placed at, just below and just above \
          floor(250/n) and floor(750/n) permille with exactly representable totals, RTT / queue-building signal held for \
          exactly 1, 2 or 3 ticks around the 2000/2500/3000 ms tier boundaries, totals at 99 999 / 100 000 / 100 001 bit/s, \
          link churn (join, leave, reorder, disconnect), weird floats (NaN, inf, negative, -0.0, huge, subnormal) and \
@@ -427,7 +427,7 @@ impl Component for Classifier {
 
     fn gen_case(&mut self, rng: &mut Rng, _tier: Tier, _idx: usize) -> Vec<String> {
         let mut ops = Vec::new();
-        let scenario = rng.below(16);
+        let scenario = rng.below(19);
         match scenario {
             0 | 1 | 2 => {
                 // starved link, long run
@@ -628,6 +628,52 @@ impl Component for Classifier {
                         let a = rng.below(ls.len() as u64) as usize;
                         let b = rng.below(ls.len() as u64) as usize;
                         ls.swap(a, b);
+                    }
+                    ops.push(tick_op(&ls));
+                }
+            }
+            16 | 17 | 18 => {
+                // probation windows with bypassed / disconnected / removed ticks inside them
+                let n = rng.range(2, 4) as usize;
+                let victim = rng.below(n as u64) as usize;
+                let lead = rng.below(3) as usize; // healthy ticks before the starvation starts
+                let len = lead + 15 + 3 + rng.range(2, 22) as usize;
+                let tiny = rng.chance(1, 3);
+                // what happens on each tick of the first window (and, shifted, on later ticks)
+                let plan: Vec<u64> = (0..len).map(|_| rng.below(8)).collect();
+                for t in 0..len {
+                    let starving = t >= lead;
+                    let mut ls: Vec<L> = (0..n)
+                        .map(|i| {
+                            let bps = if i == victim && starving {
+                                if tiny { 1000.0 } else { 0.0 }
+                            } else {
+                                1_000_000.0 + (rng.below(4) * 500_000) as f64
+                            };
+                            L::healthy(70 + i as u64, bps)
+                        })
+                        .collect();
+                    if t >= lead + 15 {
+                        match plan[t] {
+                            0 | 1 => {
+                                // bypass tick
+                                for l in ls.iter_mut() {
+                                    l.bps = if l.bps > 1000.0 { 20_000.0 } else { l.bps };
+                                }
+                            }
+                            2 | 3 => ls[victim].c = false,
+                            4 => {
+                                // removed while the tick is bypassed
+                                for l in ls.iter_mut() {
+                                    l.bps = if l.bps > 1000.0 { 20_000.0 } else { l.bps };
+                                }
+                                ls.remove(victim);
+                            }
+                            5 if rng.chance(1, 3) => {
+                                ls.remove(victim);
+                            }
+                            _ => {}
+                        }
                     }
                     ops.push(tick_op(&ls));
                 }
